@@ -39,7 +39,11 @@ def as_int(val: SupportsInt) -> int:
     Helper function to losslessly coerce *val* into an ``#!python int``. Raises
     ``#!python TypeError`` if that cannot be done.
     """
-    int_val = int(val)
+    try:
+        int_val = int(val)
+    except (OverflowError, ValueError):
+        # E.g., float("inf") and float("nan"), respectively
+        raise TypeError(f"cannot (losslessly) coerce {val} to an int")
 
     if int_val != val:
         raise TypeError(f"cannot (losslessly) coerce {val} to an int")
